@@ -3,6 +3,7 @@ import OidcModel.Model.Flow
 import Driver.C07Wire
 import OidcModel.Model.FlowC04X
 import OidcModel.Model.FlowC04SC
+import OidcModel.Model.FlowC04RO
 import Driver.C07Fault
 open Kv Drv
 
@@ -99,7 +100,12 @@ def modelStep (m : ModSt) (l : Line) (now : Int) : ModSt × String :=
     let a : AuthReq := { clientID := str l "client", redirectURI := str l "redirect", scopes := list l "scopes",
                          nonce := str l "nonce", state := str l "state", challenge := ch }
     let hint : FlowHint := if has l "hint" then { raw := "hint", token := parseToken l } else {}
-    let (s, o) := _root_.Flow.step now m.st (.authorize a hint)
+    -- round 4c (C04): a request with a signed request object: what is stored is what the REGENERATED ParseRequestObject /
+    -- CopyRequestObjectToAuthRequest make of the query and the object as they travelled (Model/FlowC04RO.lean)
+    let (s, o) := if has l "ro" then
+        let obj := FlowRO.objectOf m.st.p.issuer a.clientID true (str l "ro.cc") (str l "ro.ccm")
+        FlowRO.stepAuthorize now m.st (if str l "ro.sig" == "ok" then C19.honGenuine obj else FlowRO.forged obj) a (str l "q.cc") (str l "q.ccm") "request-object" hint
+      else _root_.Flow.step now m.st (.authorize a hint)
     -- the subject the pending request carries (from a valid or expired id_token_hint) is part of what is compared
     let pre := match o with
       | .loginPage _ => (s.store.authReqs.getLast?.map (·.subject)).getD ""
